@@ -125,6 +125,26 @@ pub fn run(tier: &str, seed: u64, outdir: &str, extra: &[String]) {
                 mutants.push((format!("{}:noise{}", it.name, k), m));
             }
         }
+        // VP8L field sabotage: legal-stream generator with numeric fields (sizes, bit counts, max_symbol, cache bits, palette
+        // sizes, transform bits, extra bits ...) forced to extreme values; the result is wrapped as a simple lossless file
+        {
+            use crate::gen_vp8l;
+            let n = if thorough { 30000 } else { 5000 };
+            let mut p = gen_vp8l::Params::full();
+            p.deep = false;
+            for k in 0..n {
+                let one_in = *rng.pick(&[3u64, 6, 12, 24, 64]);
+                let sseed = rng.next();
+                gen_vp8l::SABOTAGE.with(|c| c.set(Some((sseed | 1, one_in))));
+                let g = catch(std::panic::AssertUnwindSafe(|| gen_vp8l::generate(sseed, &p, false)));
+                gen_vp8l::SABOTAGE.with(|c| c.set(None));
+                if let Ok(gs) = g {
+                    if gs.payload.len() <= 20000 {
+                        mutants.push((format!("vp8lgen{}:sabotage1in{}", k, one_in), riff(&[(fourcc("VP8L"), gs.payload)])));
+                    }
+                }
+            }
+        }
         // cross-frame disagreements: take frames from one animation and put them under the ANMF headers of another
         let anims: Vec<_> = files.iter().filter(|i| i.kind == "animated").collect();
         for (ai, a) in anims.iter().enumerate() {
